@@ -365,6 +365,8 @@ class QCow2Snapshot:
     def open(self) -> QCow2:
         disk = copy.copy(self.qcow2)
         disk.l1_table = self.l1_table
+        # The copy also copied the stream buffer of the active disk, don't serve its data for this snapshot
+        disk._buf = None
         disk.seek(0)
         return disk
 
